@@ -171,6 +171,9 @@ namespace foonathan
             {
                 detail::check_allocation_size<
                     bad_node_size>(node_size, [&] { return max_node_size(); }, info());
+                // check against the maximum reported to the user before any growth changes it
+                detail::check_allocation_size<
+                    bad_array_size>(count * node_size, [&] { return next_capacity(); }, info());
 
                 auto& pool = pools_.get(node_size);
 
